@@ -39,6 +39,11 @@ def run(ctx, ss):
     # C08.8: nothing on the way from the observed entry points is memoised on a parser / tree / path / container (shared.py)
     from .shared import memo_for
     ctx.guard("C08.8", memo_for, ss, "C08", "C08.8", "a query")
+    # C08.9 'a table created by CopyDecay is usable as the source of a later CDecay': the CDecay source lookup finds tables by
+    # the CURRENT name of their mother token (C03.6 shared) -- a copy keeps the token text of its source and only its .value is new
+    from .c03 import c03_6
+    from .c05 import _as
+    ctx.guard("C08.9", lambda c, s: _as(c, s, c03_6, "C08.9"), ss)
 
 
 def _queries(ss):
